@@ -117,6 +117,8 @@ def run(ctx):
     check_argument_scan(ctx, gfns)
     check_edge_selection(ctx, gfns)
     check_package_closure(ctx, gfns)
+    import c01, engine
+    c01.dependency_edges(engine.AliasCtx(ctx, {"R01.6": "R06.11"}))
 
 
 def agg_payload_locals(prov, f, operand, variant):
